@@ -21,7 +21,7 @@ Mem(l, p) ==
   IF l.kind # "stroke" THEN (IF SrcIn(l, p) THEN "in" ELSE "out")
   ELSE IF Det(l.shape.m) = 0 THEN "out"
   ELSE IF ~InClips(l.clips, p) THEN "out"
-  ELSE StrokeMem(l.shape.tag, l.shape.g, StrokeParams(l.ctx), PreImage(l.shape.m, p[1], p[2], U))
+  ELSE StrokeMem(l.shape.tag, l.shape.g, l.sp, PreImage(l.shape.m, p[1], p[2], U), l.cs)
 
 MemIn(l, p) == Mem(l, p) = "in"
 
@@ -30,7 +30,17 @@ InScope(src) == ~\E a, b \in 1..Len(src) : src[a].kind = "fill" /\ src[b].kind =
 
 Judge(c) ==
   IF c.out.k # "ok" THEN "ok:exception:" \o c.out.t
-  ELSE LET src == Layers(c.doc)
+  ELSE LET src0 == Layers(c.doc)
+           \* per-layer precomputation (contours, stroke parameters): operators are not memoised
+           src == [k \in 1..Len(src0) |->
+                     IF src0[k].kind = "stroke"
+                     THEN [shape |-> src0[k].shape, clips |-> src0[k].clips, paint |-> src0[k].paint,
+                           e |-> src0[k].e, grp |-> src0[k].grp, kind |-> "stroke", ni |-> src0[k].ni,
+                           eo |-> src0[k].eo, sp |-> StrokeParams(src0[k].ctx),
+                           cs |-> StrokeContours(src0[k].shape.tag, src0[k].shape.g)]
+                     ELSE [shape |-> src0[k].shape, clips |-> src0[k].clips, paint |-> src0[k].paint,
+                           e |-> src0[k].e, grp |-> src0[k].grp, kind |-> "fill", ni |-> src0[k].ni,
+                           eo |-> src0[k].eo]]
            out == c.out.layers
        IN IF ~InScope(src) THEN "ok:out-of-scope"
           ELSE LET S(p) == StackAt(src, MemIn, p)
